@@ -56,7 +56,7 @@ SRC_NAMES = [("plain", "p.ucg"), ("dotted", "conf.prod.ucg"), ("subdir", "sub/x.
 FAULT_KINDS = ["enospc", "eisdir", "efbig"]
 PROBES = ["failed_conversion_over_existing_artifact", "failed_conversion_without_artifact", "streaming_converter_failed_late",
           "torn_first_byte", "torn_middle", "torn_last_byte", "success_after_failure", "two_outs", "error_after_out",
-          "foreign_preexisting", "built_from_other_cwd"]
+          "foreign_preexisting", "built_from_other_cwd", "built_through_directory_walk", "built_through_dotslash"]
 
 TIERS = {
     "quick": {"runs": 640, "wall_cap": 200},
@@ -100,6 +100,7 @@ def generate(rng, tier, idx):
         return fixed[idx]
     name_cls, src = rng.weighted([(SRC_NAMES[0], 5), (SRC_NAMES[1], 2), (SRC_NAMES[2], 2), (SRC_NAMES[3], 1)])
     w = {"src": src, "dir": "proj", "abs": rng.chance(25), "cwd": rng.weighted([("proj", 6), ("", 2), ("elsewhere", 2)]),
+         "how": rng.weighted([("file", 7), ("dotslash", 1), ("walk_noargs", 1), ("walk_r", 1), ("walk_dir_arg", 1)]),
          "pre": rng.weighted([("none", 6), ("foreign", 2)]), "others": [], "steps": []}
     if rng.chance(50):
         w["others"].append(["proj/keep.txt", "keep-" + rng.token(6)])
@@ -219,10 +220,22 @@ def execute(world, sb, res):
     ref = Ref(sb, res)
     src_rel = world["dir"] + "/" + world["src"]
     cwd = world["cwd"]
-    if world["abs"]:
-        arg = sb.p(src_rel)
+    how = world.get("how", "file")
+    src_dir = os.path.dirname(src_rel)
+    if how == "walk_noargs":        # `ucg build` from the source's directory builds every .ucg file in it
+        cwd, argv = src_dir, ["build"]
+    elif how == "walk_r":           # recursive walk from the project directory
+        cwd, argv = world["dir"], ["build", "-r"]
+    elif how == "walk_dir_arg":     # directory given as the argument
+        argv = ["build", sb.p(src_dir) if world["abs"] else os.path.relpath(sb.p(src_dir), sb.p(cwd))]
+    elif how == "dotslash":
+        cwd, argv = src_dir, ["build", "./" + os.path.basename(src_rel)]
+    elif world["abs"]:
+        argv = ["build", sb.p(src_rel)]
     else:
-        arg = os.path.relpath(sb.p(src_rel), sb.p(cwd))
+        argv = ["build", os.path.relpath(sb.p(src_rel), sb.p(cwd))]
+    if how != "file":
+        res.probe("built_through_" + ("directory_walk" if how.startswith("walk") else "dotslash"))
     if cwd != world["dir"]:
         res.probe("built_from_other_cwd")
     steps = []
@@ -279,7 +292,7 @@ def execute(world, sb, res):
                     n = ln
                 fsize = int(n)
         before = sb.snapshot(world["dir"])
-        inv = sb.invoke(["build", arg], cwd=cwd, fsize=fsize)
+        inv = sb.invoke(argv, cwd=cwd, fsize=fsize)
         after = sb.snapshot(world["dir"])
         created, removed, changed = diff(before, after)
         touched = created + removed + changed
@@ -438,6 +451,8 @@ def shrink_candidates(world):
         yield dict(w, others=[])
     if w["pre"] != "none":
         yield dict(w, pre="none")
+    if w.get("how", "file") != "file":
+        yield dict(w, how="file")
     if w["abs"]:
         yield dict(w, abs=False)
     if w["cwd"] != w["dir"]:
